@@ -1403,12 +1403,15 @@ def run(ctx: Ctx) -> None:
     )
     ctx.cov["trusted_base"] = list(vlib.TRUSTED_BASE) + [
         "tools/gen_c12.py (Python ast -> Gen/Engines.lean); every generated definition is compared with the running session classes on each run",
+        "ASSUMED engine primitives (Impl/C12Round.lean `primRound` / `primRoundScaleExists`): Postgres round(double precision) = ties to even, round(numeric) = ties away from zero, no round(double precision, integer); every other engine's ROUND = ties away from zero — C12_round_ties is relative to this table",
         "NOT part of the proof, oracle of the validation stream only: sqlglot 26.14 parsers/generators for the seven dialects and DuckDB 1.2.2 (thorough tier: PySpark 3.5.9 for the Spark session)",
     ]
     ctx.assumptions += [
         "the SQL text for each dialect is written by sqlglot's generators (third party); its cross-engine equivalence is validated per program by execution, not proved",
         "the executable interpretation of BigQuery / Snowflake / Postgres / Databricks / Spark / Redshift text is sqlglot's parser for that dialect + sqlglot's DuckDB generator + DuckDB 1.2.2; the real engines are unreachable offline and nothing is claimed about them",
         "oracle adaptation: Redshift VARCHAR(MAX) is read as unbounded TEXT when the parse is written for DuckDB",
+        "Postgres text is read under the assumed ROUND primitives: ROUND(x) with x typed double by sqlglot's annotate_types is evaluated as DuckDB ROUND_EVEN(x, 0), ROUND over NUMERIC as ROUND; ROUND(double, scale) is rejected as non-existent",
+        "column references are resolved with sqlglot's qualify under the engine's own dialect only for Postgres and Snowflake (the dialects whose sqlglot strategy keeps quoted identifiers as written); for the others DuckDB's binder is the resolver",
         "engine sessions are the real session classes on stub driver modules and a recording fake DB-API connection (Spark: a fake PySpark session object; in the thorough tier additionally a live PySpark JVM for the first 250 programs); driver-specific behaviour (type conversion, cursors) is not exercised",
         "an engine reports an output column under the alias written in the statement (exactly when quoted; folded by its own strategy when not) — `engineReports` in Impl/C12Names.lean",
         "sqlglot's four NORMALIZATION strategies are modelled on ASCII letters and compared with the live normalize_identifiers on a fixed pool of names",
